@@ -470,7 +470,7 @@ def main():
         raise SystemExit(0 if verdict == "ok" else 1)
 
     # ---- generate stub cases ----------------------------------------------------------------
-    n_cases = (25000 if T else 1500) if not net_replay else 12
+    n_cases = (25000 if T else 1600) if not net_replay else 12      # about a third are one-field siblings of the case before them
     cases = []
     # the recorded witness first (DESIGN.md section 8 #11), then its neighbours
     wit = {"orig": None, "acc": Accelerator.Ethos_U65_512, "kind": "conv", "ifm": "int8", "shape": (1, 1, 4, 8), "dil": 1, "wdt": "int8",
@@ -487,11 +487,109 @@ def main():
     c = dict(wit)
     c["acc"] = Accelerator.Ethos_U65_256
     cases.append(c)
+    def one_field_sibling(c):
+        """a case that differs from `c` in exactly ONE field (history: it is run right after `c` in this process; the Lean model
+        is history-free, so state kept between two calls of the real encoder shows as model != real on the sibling).  The weight
+        VALUES stay the same object content unless the varied field is the weights themselves."""
+        kh, kw, I, O = c["shape"]
+        fields = ["acc", "ifm", "dil", "bd", "offsets", "bias", "ifm_scale", "ofm_scale", "wscales", "wzp", "away", "explicit", "orig", "wvals", "bias_dt"]
+        rng.shuffle(fields)
+        for f in fields:
+            d = dict(c)
+            if f == "acc":
+                d["acc"] = rng.choice([a_ for a_ in accs if a_ != c["acc"]])
+            elif f == "ifm":
+                alt = {"int8": "int16", "int16": "int8"}.get(c["ifm"])
+                if alt is None or (alt == "int8" and c["bias_dt"] == "int64"):
+                    continue
+                d["ifm"] = alt
+            elif f == "dil":
+                if c["kind"] not in ("conv", "dw"):
+                    continue
+                d["dil"] = 2 if c["dil"] == 1 else 1
+            elif f == "bd":
+                ub = ArchitectureFeatures.accelerator_configs[c["acc"]].ofm_ublock.depth
+                d["bd"] = rng.choice([x for x in (ub, 2 * ub, 4 * ub, 8 * ub, c["bd"] + ub) if x != c["bd"]])
+            elif f == "offsets":
+                for _ in range(6):
+                    o2 = gen_offsets(O, arch_of(c["acc"]).ncores, c["bd"], c["okind"] if c["okind"] in ("full", "sched", "even", "any") else "any")
+                    if o2 != c["offsets"]:
+                        d["offsets"] = o2
+                        break
+                else:
+                    continue
+            elif f == "bias":
+                b2 = list(c["bias"])
+                b2[rng.randrange(O)] += rng.choice([1, -1, 256, -4096])
+                if c["bias_dt"] == "int32" and not all(-(1 << 31) <= x < (1 << 31) for x in b2):
+                    continue
+                d["bias"] = b2
+            elif f == "bias_dt":
+                if c["bias_dt"] != "int32" or c["ifm"] != "int16":
+                    continue
+                d["bias_dt"] = "int64"
+            elif f in ("ifm_scale", "ofm_scale"):
+                d[f] = f32(float(c[f]) * rng.choice([0.5, 2.0, 1.25]))
+            elif f == "wscales":
+                if isinstance(c["wscales"], np.ndarray):
+                    w2 = c["wscales"].copy()
+                    j = rng.randrange(O)
+                    w2[j] = f32(float(w2[j]) * rng.choice([0.5, 2.0, 1.5]))
+                    d["wscales"] = w2
+                else:
+                    d["wscales"] = f32(float(c["wscales"]) * rng.choice([0.5, 2.0, 1.5]))
+            elif f == "wzp":
+                if c["wdt"] == "uint8" and not isinstance(c["wzp"], np.ndarray):
+                    d["wzp"] = (int(c["wzp"]) + rng.randint(1, 200)) % 256
+                elif isinstance(c["wzp"], np.ndarray):
+                    z2 = c["wzp"].copy()
+                    j = rng.randrange(O)
+                    z2[j] = (int(z2[j]) + 1) if int(z2[j]) < (255 if c["wdt"] == "uint8" else 127) else int(z2[j]) - 1
+                    d["wzp"] = z2
+                else:
+                    continue
+            elif f == "away":
+                if c["kind"] not in ("conv", "dw") or c.get("orig"):
+                    continue
+                d["away"] = not c["away"]
+            elif f == "explicit":
+                if c["explicit"] is None:
+                    d["explicit"] = ([rng.randrange(0, 64)], [rng.getrandbits(31)])
+                else:
+                    sh, mu = list(c["explicit"][0]), list(c["explicit"][1])
+                    j = rng.randrange(len(sh))
+                    sh[j] = (sh[j] + 1) % 64
+                    d["explicit"] = (sh, mu)
+            elif f == "orig":
+                if c["away"]:
+                    continue
+                if c["kind"] == "fc":
+                    d["orig"] = None if c.get("orig") else "conv"
+                elif c["kind"] == "conv" and (kh, kw) == (1, 1):
+                    d["orig"] = None if c.get("orig") else "fc"
+                else:
+                    continue
+            elif f == "wvals":
+                v2 = c["wvals"].copy()
+                idx = tuple(rng.randrange(n_) for n_ in v2.shape)
+                lo_, hi_ = (0, 255) if c["wdt"] == "uint8" else (-128, 127)
+                v2[idx] = int(v2[idx]) + 1 if int(v2[idx]) < hi_ else int(v2[idx]) - 1
+                d["wvals"] = v2
+            d["sibling_of"] = f
+            return d
+        return None
+
     while len(cases) < n_cases:
         c = gen_case()
         if rng.random() < 0.06:
             c = malform(c)
         cases.append(c)
+        if not c["mal"] and rng.random() < 0.55:
+            d = one_field_sibling(c)
+            if d is not None:
+                cases.append(d)
+                ck.count("sibling_cases")
+                ck.count("sibling_field_" + d["sibling_of"])
 
     built, prep_reqs, prep_real = [], [], []
     for c in cases:
@@ -577,6 +675,8 @@ def main():
         d["acc"] = c["acc"].value
         d["weights_hwio"] = c["wvals"].tolist()
         d["stub_case"] = True
+        if c.get("sibling_of"):
+            d["history"] = "run right after a case that differs only in field '%s' (same process)" % c["sibling_of"]
         d["replay"] = ("build a %s operator (ethosu/vela/test/testutil style stub), weights shape %s, then weight_compressor.encode_weight_and_scale_tensor("
                        "arch(%s), op, w, b, Kernel(%d,%d,dilation %d), block depth %d, %s)" %
                        (c["kind"], tuple(c["wvals"].shape), c["acc"].value, c["shape"][1], c["shape"][0], c["dil"], c["bd"], c["offsets"]))
@@ -756,7 +856,7 @@ def main():
     seq_same_reqs, seq_meta = [], []
     cache_model_reqs, cache_real = [], []
     scale_only = []      # (args, scale tensor) of weights-only hits
-    n_worlds = (800 if T else 60) if not net_replay else 1
+    n_worlds = (800 if T else 80) if not net_replay else 1      # odd worlds vary ONE request field at a time
     for wi in range(n_worlds):
         cache.clear()
         base = gen_case({"acc": rng.choice([Accelerator.Ethos_U65_512, Accelerator.Ethos_U55_128, Accelerator.Ethos_U65_256])})
@@ -781,7 +881,36 @@ def main():
         # the accelerator is constant while a cache lives (compiler_driver empties it), so it is not varied here;
         # the cross-compilation case is scenario (c) below
         axis = rng.choice(["ifm", "ifm", "none"])
-        for _ in range(rng.randint(3, 7)):
+        ladder = wi % 2 == 1
+        if ladder:
+            # ONE field at a time: the base request, then requests that differ from it in exactly one field of the request (the same
+            # weight tensor object throughout), each possibly followed by the base request again.  Whatever the cache key forgets
+            # is answered with the base's (or the variant's) encoding and differs from a fresh one.
+            v0 = {"offsets": offs_pool[0], "bd": base["bd"], "dil": 1, "ifm": "int8", "acc": base["acc"], "bias2": False, "ofm_scale2": False}
+            variants.append(dict(v0))
+            fields = ["offsets", "bd", "dil", "ifm", "bias2", "ofm_scale2"]
+            rng.shuffle(fields)
+            for f in fields:
+                v = dict(v0)
+                if f == "offsets":
+                    alt = [o_ for o_ in offs_pool[1:] if o_ != v0["offsets"]]
+                    if not alt:
+                        continue
+                    v[f] = alt[0]
+                elif f == "bd":
+                    v[f] = rng.choice([x for x in (8, 16, 32, 64) if x != v0["bd"]])
+                elif f == "dil":
+                    v[f] = 2
+                elif f == "ifm":
+                    v[f] = "int16"
+                else:
+                    v[f] = True
+                variants.append(v)
+                ck.count("cache_one_field_" + f)
+                if rng.random() < 0.5:
+                    variants.append(dict(v0))
+            ck.count("cache_worlds_one_field_at_a_time")
+        for _ in range(0 if ladder else rng.randint(3, 7)):
             v = {"offsets": rng.choice(offs_pool), "bd": rng.choice([base["bd"], base["bd"], 8, 16, 64]), "dil": rng.choice([1, 1, 1, 2]),
                  "ifm": "int8", "acc": base["acc"], "bias2": rng.random() < 0.3, "ofm_scale2": rng.random() < 0.2}
             r = rng.random()
